@@ -68,6 +68,11 @@ def run_programs(name, progs, scope, known, *, opts=None, kf_crosstalk="KF-K7-cr
         for o in r["outputs"]:
             if o["status"] in ("ok", "skip"):
                 continue
+            if o["status"] == "const-const-decider":
+                if "KF-C01-noopt-constant-comparison" in known:
+                    br.known_hits.append({"id": "KF-C01-noopt-constant-comparison", "what": f"{pid}:{o['name']}"})
+                    continue
+                o["status"] = "mismatch"
             if o["status"] == "entity-output-collision":
                 if "KF-C06-entity-output-signal-collision" in known:
                     br.known_hits.append({"id": "KF-C06-entity-output-signal-collision", "what": f"{pid}:{o['name']}"})
